@@ -106,6 +106,25 @@ def roc_event(ev, s, o, a, x, g):
             e["t_fpr"] = [proj(t) for t in np.asarray(s.threshold_at_fpr(np.array(kw["fpr"])), dtype=float)]
     except Exception as ex:  # noqa
         e["exc"] = sd.exc_str(ex)
+        return
+    # history: the caller now writes into its own arrays (what it passed in, what it read from the
+    # derived views) and reads the curve again
+    e2 = ev("roc_reread", h=1, out={"thr": [], "fnr": [], "fpr": [], **{v: [] for v in VIEWS}})
+    try:
+        for v in ("tpr", "tnr", "tar", "trr"):               # the COMPUTED views (far / frr are the stored arrays)
+            arr = getattr(c, v)
+            if isinstance(arr, np.ndarray) and arr.flags.writeable:
+                arr *= 100.0                                   # e.g. converted to percent for a plot
+        for key in ("thresholds", "fnr"):
+            if isinstance(kw.get(key), np.ndarray) and kw[key].size:
+                kw[key] += 1000.0                              # the caller's buffer is reused
+        e2["out"]["thr"] = [proj(t) for t in np.asarray(c.thresholds, dtype=float)]
+        e2["out"]["fnr"] = rats(c.fnr)
+        e2["out"]["fpr"] = rats(c.fpr)
+        for v in VIEWS:
+            e2["out"][v] = rats(getattr(c, v))
+    except Exception as ex:  # noqa
+        e2["exc"] = sd.exc_str(ex)
 
 
 def events_for_case(o, cid, g, args, ids, axes_per_arg=2):
